@@ -109,7 +109,9 @@ class CHECK(Check):
     # ---- implementation
     def impl(self, case):
         if case["t"] == "field":
-            f = fl.mk_field(case["fd"], fl.py_value(case["v"]))
+            import hashlib, json
+            hh = int(hashlib.sha1(json.dumps(case, sort_keys=True).encode()).hexdigest(), 16)
+            f = fl.mk_field(case["fd"], fl.py_value_typed(case["v"], (hh >> 1) if hh & 1 else 0))
             if case["mode"] == "str":
                 return {"out": f.write(case["target"])}
             try:
@@ -121,7 +123,9 @@ class CHECK(Check):
             fields = [fl.mk_field(fd) for fd in case["fields"]]
             line = Line(fields, storage="BINARY" if case["binary"] else "TEXT")
             try:
-                out = line.write([fl.py_value(v) for v in case["values"]])
+                import hashlib, json
+                hh = int(hashlib.sha1(json.dumps(case, sort_keys=True).encode()).hexdigest(), 16)
+                out = line.write([fl.py_value_typed(v, (hh >> (3 * i + 1)) if hh & 1 else 0) for i, v in enumerate(case["values"])])
             except OverflowError:
                 return {"out": None}
             return {"out": list(out) if isinstance(out, bytes) else out}
